@@ -18,7 +18,8 @@ RULE = ("for every elementary/string/bit-string type and generated Array/Struct/
         "truncation point of valid encodings, the empty buffer and random bytes must raise DataError whenever the reference parser "
         "runs out of bytes (BufferEmptyError only when the buffer ends exactly where a value starts); T[None] over whole elements "
         "must return exactly those elements; the smallest COMPLETE encodings of the string codecs (empty STRINGN at character sizes 1/2/4, empty "
-        "SHORT_STRING / STRING / STRING2 / STRINGI, unbounded arrays with empty elements inside and last) must decode to the expected value; every call runs under a 200k line-event budget (sys.monitoring). "
+        "SHORT_STRING / STRING / STRING2 / STRINGI, unbounded arrays with empty elements inside and last) must decode to the expected value; every truncation "
+        "point of complete ListIdentityObject / ModuleIdentityObject / Revision / IPAddress / StructTemplateAttributes encodings must raise; every call runs under a 200k line-event budget (sys.monitoring). "
         "distinct = (type shape, bad-value class | truncation class) evaluated")
 ASSUMPTIONS = [
     "domain predicates from the CIP spec (integer ranges, float32 range, ISO-8859-1 / one code unit characters, prefix capacity, exact bit-string length)",
